@@ -24,6 +24,18 @@ Tie to the source (robotpy_ext/misc/precise_delay.py, run from $VERIF_REPO):
     -- advances the clock EXACTLY to the alarm.  Nothing depends on wall-clock
     time; there is no tolerance anywhere.  The same operation lists are run by
     the model inside Coq (Delay.Model.case_ok) and compared there.
+  * two threads: a wait() can also be run "in halves" (operations WB .. WE): a
+    second, real thread (the loop thread) calls wait(); once the HAL confirms
+    that it is blocked inside HAL_WaitForNotifierAlarm the driving thread goes
+    on with the operations up to WE -- lets simulated time pass (always short
+    of the alarm), enters the with-block, and above all RELEASES the object
+    (free(), __exit__ directly, or really leaving the with-block) while the
+    wait() is in progress, at a chosen simulated instant before the grid point --
+    and at WE joins the loop thread (advancing the clock exactly to the alarm
+    first when nobody released).  Recorded per such wait(): FPGA time of the
+    call, FPGA time read by the loop thread itself right after wait() came back,
+    whether it came back by an exception.  Compared in Coq with the two-thread
+    model (Delay.Model.cpredict: WaitBegin / WaitEnd / Other).
   * period conversion, finite float part: the real constructor is called with
     the nearest double of n/10^6 for every whole microsecond n of the stated
     range and the period it programs into the HAL must be n.  That is a runtime
@@ -91,6 +103,10 @@ def op_text(o):
         return "free()"
     if o[0] == "E":
         return "__enter__ (entering the with-block)"
+    if o[0] == "WB":
+        return "wait() called by the loop thread (a second thread)"
+    if o[0] == "WE":
+        return "that wait() is back (the loop thread is joined)"
     h = how_of(o)
     if h.startswith("raise:"):
         return "leaving the with-block (__exit__) by a %s raised in the loop body" % h[6:]
@@ -111,6 +127,10 @@ class Sim:
         self.q = None
         self.enabled = False            # gates only the announcement of blocking waits
         self.inits = set()
+        self.loop_ident = None          # the loop thread of a wait() run in halves (WB .. WE)
+        self.loop_evt = threading.Event()   # set when that thread reaches hal.waitForNotifierAlarm, or has left wait()
+        self.loop_in = None             # (clock, alarm or None) when it reached the HAL call
+        self.slow = 0                   # releases after which the wait() in progress did not come back within 2 s
         self.reset(None)
 
     # -- clock ---------------------------------------------------------
@@ -174,14 +194,24 @@ class Sim:
             if self.enabled:
                 h = handle_of(a, k)
                 self.halwaits += 1
+                mine = threading.get_ident() == self.loop_ident
                 if h in self.active:
                     t = self.now()
                     al = self.alarm()
                     if al is None:
                         raise WouldHang("waitForNotifierAlarm on an active notifier without alarm at t=%d" % t)
-                    if al > t:
+                    if mine:
+                        # the loop thread of a wait() run in halves: the driving thread (not the main thread) looks after it
+                        if al > t:
+                            self.blocked += 1
+                        self.loop_in = (t, al)
+                        self.loop_evt.set()
+                    elif al > t:
                         self.blocked += 1
                         self.q.put(("halwait", t, al))
+                elif mine:
+                    self.loop_in = (self.now(), None)
+                    self.loop_evt.set()
             return real["waitForNotifierAlarm"](*a, **k)
 
         hal.initializeNotifier = t_init
@@ -225,6 +255,64 @@ def impl():
 # says (see HOWS; default "end").  Every other E / X is a direct call of __enter__() /
 # __exit__ with the matching (exc_type, exc_val, exc_tb).  A "with" case whose first X is not
 # preceded by an E (the older corpus and replay files) means the one-liner: norm() puts the E in front.
+#
+# Two threads: ["WB"] = a second thread (the loop thread) calls wait() -- the first half of wait() up to and into
+# hal.waitForNotifierAlarm; ["WE"] = that call is back (second half: the loop thread is joined).  The operations between
+# them are executed by the driving thread WHILE the wait() is in progress: B (time passes), E, and F / X -- the release
+# during a wait().  valid() says which such lists the driver accepts (the loop thread must really be blocked, and stay
+# so until the release or the WE).
+
+def is_split(case):
+    return any(o[0] in ("WB", "WE") for o in case["ops"])
+
+
+def valid(case):
+    """Is the operation list one the two-thread driver runs deterministically?  (The ideal arithmetic of the property
+    decides whether a wait blocks; a list without WB/WE is always valid.)"""
+    if not is_split(case):
+        return True
+    n, t0 = case["n"], case["t0"]
+    if n is None or n < 1000:
+        return False
+    now, k, freed, pend = t0, 0, False, None
+    for o in case["ops"]:
+        if o[0] == "B":
+            if o[1] < 0:
+                return False
+            if pend and not pend["dead"]:
+                if pend["rel"] and o[1] > 0:
+                    return False        # after the release the loop thread reads the clock: it stands still until WE
+                if not pend["rel"] and now + o[1] >= pend["g"]:
+                    return False        # the loop thread must stay blocked: short of its alarm
+            now += o[1]
+        elif o[0] == "W":
+            if pend:
+                return False
+            if not freed:
+                k += 1
+                now = max(now, t0 + k * n)
+        elif o[0] == "WB":
+            if pend:
+                return False
+            if freed:
+                pend = {"dead": True, "rel": True, "g": None}
+            else:
+                k += 1
+                if now >= t0 + k * n:
+                    return False        # would not block
+                pend = {"dead": False, "rel": False, "g": t0 + k * n}
+        elif o[0] == "WE":
+            if not pend:
+                return False
+            if not pend["rel"]:
+                now = pend["g"]
+            pend = None
+        elif o[0] in ("F", "X"):
+            freed = True
+            if pend:
+                pend["rel"] = True
+    return pend is None
+
 
 def norm(case):
     """the case with the E of its with-statement made explicit (idempotent)"""
@@ -266,7 +354,10 @@ def drive(sim, cls, case):
     q = queue.Queue()
     sim.reset(q)
     sim.restart(case["t0"])
-    res = {"ctor": None, "t0": sim.now(), "snap0": None, "snaps": [], "error": None}
+    res = {"ctor": None, "t0": sim.now(), "snap0": None, "snaps": [], "error": None, "split": []}
+    if is_split(case) and not valid(case):
+        res["error"] = "harness: not a list the two-thread driver accepts"
+        return res
     if sim.hs.getNumNotifiers() != 0:
         res["error"] = "harness: %d stray active notifiers before the case" % sim.hs.getNumNotifiers()
         return res
@@ -276,11 +367,82 @@ def drive(sim, cls, case):
     def snap():
         return [sim.now(), sim.alarm(), sim.cleans]
 
+    pend = {}                   # "w": the wait() in progress (run in halves)
+    loops = []                  # every loop thread started
+
+    def begin_wait(d):
+        """WB: a second thread -- the loop thread -- calls d.wait(); come back when it is inside HAL_WaitForNotifierAlarm
+        (positively confirmed by the HAL) or has already left wait()"""
+        w = {"call": sim.now(), "ret": None, "err": None, "done": threading.Event(), "blocked": False}
+
+        def loop_thread():
+            sim.loop_ident = threading.get_ident()
+            try:
+                d.wait()
+            except BaseException as e:
+                w["err"] = e
+            w["ret"] = sim.now()        # read by the loop thread itself, right after wait() came back
+            w["done"].set()
+            sim.loop_evt.set()
+        sim.loop_evt.clear()
+        sim.loop_in = None
+        w["thread"] = threading.Thread(target=loop_thread, daemon=True)
+        pend["w"] = w
+        loops.append(w["thread"])
+        w["thread"].start()
+        if not sim.loop_evt.wait(HANG_S / 2):
+            res["error"] = "hang: wait() called by the loop thread at %d neither reached the HAL nor returned" % w["call"]
+            raise Abort
+        li = sim.loop_in
+        if not w["done"].is_set() and li is not None and li[1] is not None and li[1] > li[0]:
+            w["blocked"] = True
+            if sim.hs.getNumNotifiers() == 1:
+                sim.hs.stepTiming(0)    # returns once the (only) active notifier is inside HAL_WaitForNotifierAlarm
+                res["confirmed"] = res.get("confirmed", 0) + 1
+        else:
+            w["done"].wait(HANG_S / 2)  # it does not block: let it finish
+
+    def released():
+        """after free() / __exit__ by this thread: if a wait() is in progress on the notifier that has just been stopped,
+        the HAL is waking the loop thread; let it come back before the clock is touched again"""
+        w = pend.get("w")
+        if w and not w["done"].is_set() and not sim.active and sim.slow < 3:
+            if not w["done"].wait(2.0):
+                sim.slow += 1
+
+    def end_wait():
+        """WE: the wait() in progress comes back.  Nobody released: the clock goes exactly to the alarm first."""
+        w = pend.pop("w")
+        if not w["done"].is_set() and sim.active:
+            now, al = sim.now(), sim.alarm()
+            if al is None:
+                res["error"] = "hang: the wait() in progress since %d waits on an active notifier without alarm" % w["call"]
+                raise Abort
+            if sim.hs.getNumNotifiers() == 1:
+                sim.hs.stepTiming(0)
+            sim.advance(max(0, al - now))
+        if not w["done"].wait(HANG_S / 2):
+            res["error"] = ("hang: the wait() in progress since %d has not come back (FPGA time %d, notifier %s)"
+                            % (w["call"], sim.now(), "still armed" if sim.active else "stopped"))
+            pend["w"] = w
+            raise Abort
+        w["thread"].join(HANG_S / 2)
+        res["split"].append([w["call"], w["ret"], 1 if w["err"] is not None else 0])
+        if w["err"] is not None:
+            res["split_error"] = "%s: %s" % (type(w["err"]).__name__, str(w["err"]).split("\n")[0])
+            raise w["err"]
+
     def run(d, part):
         for o in part:
             if abort.is_set():
                 raise Abort
-            if o[0] == "B":
+            if o[0] == "WB":
+                begin_wait(d)
+                res["snaps"].append(snap())
+            elif o[0] == "WE":
+                end_wait()
+                res["snaps"].append(snap())
+            elif o[0] == "B":
                 sim.advance(o[1])
                 res["snaps"].append(snap())
             elif o[0] == "W":
@@ -288,6 +450,7 @@ def drive(sim, cls, case):
                 res["snaps"].append(snap())
             elif o[0] == "F":
                 d.free()
+                released()
                 res["snaps"].append(snap())
             elif o[0] == "E":
                 # __enter__ called directly (what contextlib.ExitStack.enter_context or a second with-statement on
@@ -303,6 +466,7 @@ def drive(sim, cls, case):
                     ret = d.__exit__(None, None, None)
                 else:
                     ret = d.__exit__(type(exc), exc, exc.__traceback__)
+                released()
                 res["snaps"].append(snap() + [1 if (exc is not None and not ret) else 0])
 
     def with_statement(e, i):
@@ -358,6 +522,7 @@ def drive(sim, cls, case):
         # exc -> traceback -> this frame -> exc is a reference cycle that would keep the object alive until
         # some later garbage collection: break it, so that the object dies with the worker's frames
         exc = None
+        released()
         res["snaps"].append(snap() + [1 if came_out else 0])
         return holder.pop()
 
@@ -409,6 +574,11 @@ def drive(sim, cls, case):
             res["error"] = "harness: clock moved while a wait was outstanding"
         sim.advance(max(0, m[2] - sim.now()))   # exactly to the alarm, never beyond
     th.join(timeout=HANG_S)
+    if any(t.is_alive() for t in loops):
+        sim.release_leftovers()         # a loop thread is still inside the HAL: stopping its notifier wakes it
+        for t in loops:
+            t.join(timeout=2.0)
+    sim.loop_ident = None
     sim.enabled = False
     res["blocked"] = sim.blocked
     if sim.active:
@@ -440,19 +610,57 @@ def oracle(case, res):
     ent = ""                    # set once a with-block has been entered after the construction instant
     span = with_span(case)
     ops = case["ops"]
+    splits = [list(x) for x in res.get("split", [])]
+    pw = None                   # the wait() in progress (run in halves)
     for i, o in enumerate(ops):
         if i >= len(res["snaps"]):
             break
         cur = res["snaps"][i]
+        if o[0] == "WB":
+            pw = {"i": i, "call": prev[0], "freed": freed, "rel": None, "k": None, "g": None}
+            if not freed:
+                k += 1
+                pw["k"], pw["g"] = k, t0 + k * n
+                if prev[1] != pw["g"]:
+                    out.append(("alarm-off-grid", "op %d: the alarm armed for wait %d is %s, the grid point t0+%d*P is %d (t0=%d, P=%d us)"
+                                % (i, k, prev[1], k, pw["g"], t0, n)))
+        if o[0] == "WE" and pw is not None and splits:
+            call, ret, raised = splits.pop(0)
+            if raised:
+                pass                    # reported below (wait-in-progress-raised)
+            elif pw["freed"]:
+                if ret != call:
+                    out.append(("wait-after-free-blocked", "op %d: wait() called at %d by the loop thread, after %s, did not return immediately: it came back at %d"
+                                % (pw["i"], call, rel, ret)))
+            elif pw["rel"] is not None:
+                ri, rt, rtext = pw["rel"]
+                if ret != rt:
+                    out.append(("wait-in-progress-not-released",
+                                "op %d: wait %d was in progress (called at %d by the loop thread, its grid point t0+%d*P = %d still ahead) when another "
+                                "thread did %s at %d (op %d); it did not return at that instant but at %d"
+                                % (pw["i"], pw["k"], call, pw["k"], pw["g"], rtext, rt, ri, ret)))
+            else:
+                g, kk, at = pw["g"], pw["k"], prev[0]       # at: the clock when the driving thread turned to the wait again
+                if ret < g:
+                    out.append(("wait-returned-early", "op %d: wait %d called at %d (loop thread) returned at %d, %d us before t0+%d*P = %d (t0=%d, P=%d us)%s"
+                                % (pw["i"], kk, call, ret, g - ret, kk, g, t0, n, ent)))
+                elif at <= g and ret != g:
+                    out.append(("wait-not-exact", "op %d: wait %d called on time at %d (loop thread; the other thread was busy until %d) returned at %d, not at t0+%d*P = %d%s"
+                                % (pw["i"], kk, call, at, ret, kk, g, ent)))
+                if cur[1] != g + n:
+                    out.append(("alarm-off-grid", "op %d: after wait %d the next alarm is %s, the grid point t0+%d*P is %d"
+                                % (i, kk, cur[1], kk + 1, g + n)))
+            pw = None
         if o[0] == "E":
             # entering the with-block -- at the construction instant or any time later -- is no clause of its own:
             # the grid below stays t0 + k*P with t0 the instant of CONSTRUCTION.  Only the bookkeeping is stated here.
             if cur[0] > t0 and not ent:
                 ent = " (the object was built at %d, %s at %d, %d us later)" % (
                     t0, "its with-block entered" if (span and i == span[0]) else "__enter__() called on it", cur[0], cur[0] - t0)
-            if not freed and cur[1] != t0 + (k + 1) * n:
+            kn = k if (pw is not None and not pw["freed"]) else k + 1     # a wait in progress: its own alarm is still the one armed
+            if not freed and cur[1] != t0 + kn * n:
                 out.append(("alarm-off-grid", "op %d: after __enter__ at %d the alarm for wait %d is %s, the grid point t0+%d*P is %d (t0=%d, P=%d us)"
-                            % (i, cur[0], k + 1, cur[1], k + 1, t0 + (k + 1) * n, t0, n)))
+                            % (i, cur[0], kn, cur[1], kn, t0 + kn * n, t0, n)))
         if o[0] == "W":
             call, ret = prev[0], cur[0]
             if not freed:
@@ -481,6 +689,8 @@ def oracle(case, res):
             # free(), and leaving the with-block in ANY way (end of block, break, return, exception)
             if not freed:
                 rel = "%s (op %d)" % (op_text(o), i)
+            if pw is not None and not pw["freed"] and pw["rel"] is None:
+                pw["rel"] = (i, cur[0], op_text(o))
             freed = True
         if freed:
             if cur[1] is not None:
@@ -490,11 +700,21 @@ def oracle(case, res):
                 out.append(("handle-not-released-once", "op %d: after %s cleanNotifier was called %d times on the handle (must be exactly once)"
                             % (i, rel, cur[2])))
         prev = cur
-    if res["error"]:
+    if res.get("split_error") and pw is not None:
+        if pw["rel"] is not None:
+            why = ("when another thread did %s at FPGA time %d (op %d): instead of returning at that instant it raised"
+                   % (pw["rel"][2], pw["rel"][1], pw["rel"][0]))
+        else:
+            why = "(nobody had released the object): it raised"
+        out.append(("wait-in-progress-raised", "op %d: wait() called at %d by the loop thread%s was in progress %s %s"
+                    % (pw["i"], pw["call"], "" if pw["g"] is None else " (wait %d, grid point t0+%d*P = %d)" % (pw["k"], pw["k"], pw["g"]),
+                       why, res["split_error"])))
+    elif res["error"]:
         out.append(("exception" if not res["error"].startswith("hang") else "hang",
                     "after %d of %d operations: %s" % (len(res["snaps"]), len(ops), res["error"])))
     # observable timing clauses first, the alarm bookkeeping last
-    rank = {"wait-returned-early": 0, "wait-not-exact": 1, "overrun-not-caught-up": 1, "wait-after-free-blocked": 2, "hang": 3, "exception": 4,
+    rank = {"wait-returned-early": 0, "wait-not-exact": 1, "overrun-not-caught-up": 1, "wait-after-free-blocked": 2,
+            "wait-in-progress-raised": 2, "wait-in-progress-not-released": 2, "hang": 3, "exception": 4,
             "handle-not-released-once": 5, "notifier-armed-after-free": 6, "alarm-off-grid": 7}
     out.sort(key=lambda f: rank.get(f[0], 9))
     return out
@@ -572,6 +792,31 @@ def edge_cases():
     cs.append(mk_case(10000, 10, loop([5000]) + [["B", 3000], E] + loop([1000, 1000]) + [["B", 25000], E, W, W, F]))
     cs.append(mk_case(10000, 10, [F, E, W, ["B", 50000], E, W]))
     cs.append(mk_case(10000, 10, [["B", 1000], E] + loop([1000]) + [X, ["B", 5000], E, W, X, W], use_with=True))
+    # ---- two threads: the object is released WHILE a wait() on it is in progress (how a timed loop running in its own
+    # thread is shut down).  WB = the loop thread calls wait() and blocks, WE = that wait() is back.
+    WB, WE = ["WB"], ["WE"]
+    # the example of Properties/C16.v (C16_nv_release_during_wait)
+    cs.append(mk_case(20000, 500000, [["B", 5000], WB, WE, ["B", 3000], WB, ["B", 4000], F, F, WE,
+                                      ["B", 100], WB, ["B", 50], WE, W, X]))
+    # released at the very instant the wait began; 1 us before its grid point; the first wait of all, t0 above 2^32
+    cs.append(mk_case(20000, 0, loop([100]) + [["B", 100], WB, F, WE, W]))
+    cs.append(mk_case(20000, 0, [WB, ["B", 19999], F, WE, ["B", 1], W, W]))
+    cs.append(mk_case(1000, 2 ** 32 + 17, [WB, ["B", 1], F, WE, W, F]))
+    # after an overrun that has been caught up, minimum period
+    cs.append(mk_case(1000, 123, [["B", 3500], W, W, W, WB, ["B", 377], F, WE, W, ["B", 5000], W]))
+    # the with-block left, in every way Python has, while the loop thread is inside wait()
+    for h in HOWS:
+        cs.append(mk_case(20000, 500000, loop([5000, 20000]) + [["B", 5000], WB, ["B", 3000], ["X", h], WE, ["B", 100], W, W, F], use_with=True))
+    # ... a with-block entered late; __exit__ called directly with exception information; __enter__ by the other thread
+    # while the loop thread waits; free() several times, __exit__ after free(), all before the wait() is back
+    cs.append(mk_case(10000, 77, [["B", 2500], E] + loop([1000, 12000, 0]) + [WB, ["B", 1], ["X", "raise:KeyboardInterrupt"], WE, W], use_with=True))
+    cs.append(mk_case(10000, 10, loop([2000]) + [["B", 100], WB, ["B", 7899], ["X", "raise:SystemExit"], WE, ["B", 1000], W, ["X", "end"], W]))
+    cs.append(mk_case(5000, 0, [WB, ["B", 10], E, ["B", 10], F, F, ["X", "raise:RuntimeError"], E, WE, W, F]))
+    # nobody releases: the other thread is busy / enters a with-block while the loop thread waits: the grid is undisturbed
+    cs.append(mk_case(20000, 500000, [["B", 5000], WB, WE, ["B", 3000], WB, ["B", 4000], E, WE, ["B", 30000], W, WB, ["B", 1000], WE, F]))
+    cs.append(mk_case(1000, 5, [WB, ["B", 999], WE, WB, WE, WB, ["B", 1], WE, ["B", 2500], W, W, WB, ["B", 499], WE, F]))
+    # the loop thread calls wait() on an object that has already been released
+    cs.append(mk_case(10000, 10, [F, WB, ["B", 500], WE, W, WB, ["X", "end"], WE]))
     return cs
 
 
@@ -692,6 +937,80 @@ def gen_case(r, below):
     return mk_case(n, t0, ops, use_with)
 
 
+def weave(r, case, shutdown):
+    """The same use with a second thread: some waits that block are run in halves (the other thread lets time pass or
+    enters a with-block meanwhile), and -- `shutdown` -- the first release (free() / leaving the with-block / __exit__)
+    happens WHILE the loop thread is inside wait(), at a random instant before the grid point of that wait."""
+    n, t0 = case["n"], case["t0"]
+    if n is None:
+        return case
+    now, k, freed = t0, 0, False
+    out = []
+    for o in case["ops"]:
+        if o[0] == "B":
+            now += o[1]
+            out.append(o)
+        elif o[0] == "W":
+            if freed:
+                if r.random() < 0.3:
+                    out.append(["WB"])
+                    if r.random() < 0.5:
+                        b = r.randrange(0, n)
+                        out.append(["B", b])
+                        now += b
+                    out.append(["WE"])
+                else:
+                    out.append(o)
+                continue
+            g = t0 + (k + 1) * n
+            if now < g and r.random() < 0.25:
+                c = r.choice([0, 1, g - now - 1, r.randrange(0, g - now)])
+                out.append(["WB"])
+                if c:
+                    out.append(["B", c])
+                if r.random() < 0.2:
+                    out.append(["E"])
+                out.append(["WE"])
+            else:
+                out.append(o)
+            k += 1
+            now = max(now, g)
+        elif o[0] in ("F", "X") and not freed:
+            if shutdown:
+                while now >= t0 + (k + 1) * n:      # catch up first: the wait in which the release falls must block
+                    out.append(["W"])
+                    k += 1
+                slack = t0 + (k + 1) * n - now
+                c = r.choice([0, 1, slack - 1, r.randrange(0, slack), r.randrange(0, slack)])
+                out.append(["WB"])
+                k += 1
+                if c:
+                    out.append(["B", c])
+                    now += c
+                if r.random() < 0.15:
+                    out.append(["E"])
+                out.append(o)
+                if r.random() < 0.3:
+                    out.append(r.choice([["F"], ["F"], ["E"], ["X", gen_how(r)]]))
+                out.append(["WE"])
+            else:
+                out.append(o)
+            freed = True
+        else:
+            out.append(o)
+    c = dict(case, ops=out)
+    return c if valid(c) else case
+
+
+def gen_case2(r, below):
+    """gen_case; a quarter of the objects are used by two threads (see weave)"""
+    c = gen_case(r, below)
+    u = r.random()
+    if u < 0.25 and c["n"] is not None:
+        c = weave(r, c, shutdown=u < 0.18)
+    return c
+
+
 def gen_how(r):
     """how a with-block is left: half of the time by an exception raised in the loop body"""
     u = r.random()
@@ -742,8 +1061,54 @@ def zlit(n):
     return "(%d)" % n if n < 0 else "%d" % n
 
 
+def coq_cop(o):
+    if o[0] == "WB":
+        return "WaitBegin"
+    if o[0] == "WE":
+        return "WaitEnd"
+    t = coq_op(o)
+    return "Other %s" % (t if " " not in t else "(%s)" % t)
+
+
+def coq_ccase(name, case, res):
+    """A case with a wait() run in halves (two threads): Delay.Model.ccase / cpredict."""
+    if res["ctor"] == "ValueError":
+        obs = "None"
+    else:
+        s0 = res["snap0"] or [res["t0"], None, 0]
+        p = (s0[1] - res["t0"]) if s0[1] is not None else -1
+        flat = [p] + flat_snap(s0)
+        pairs = list(zip(case["ops"], res["snaps"]))
+        for o, s in pairs:
+            if o[0] not in ("B", "WB"):
+                flat += flat_snap(s)
+        for o, s in pairs:
+            if o[0] == "X":
+                flat.append(s[3])
+        for o, s in pairs:
+            if o[0] == "E":
+                flat.append(s[3])
+        # one triple per wait() that was left: call, the instant it was left, 1 if by an exception
+        prev = s0
+        sp = [list(x) for x in res.get("split", [])]
+        for o, s in pairs:
+            if o[0] == "W":
+                flat += [prev[0], s[0], 0]
+            elif o[0] == "WE" and sp:
+                flat += sp.pop(0)
+            prev = s
+        flat.append(0)                  # the history has not left the model (valid() saw to that)
+        if len(res["snaps"]) != len(case["ops"]):
+            flat.append(-1)             # the run stopped early: never equal to the model's list
+        obs = "Some %s" % coq_list([zlit(x) for x in flat])
+    return "Definition %s : ccase := (%s, %s, %s, %s).\n" % (
+        name, coq_Q(case_P(case)), zlit(res["t0"]), coq_list([coq_cop(o) for o in case["ops"]]), obs)
+
+
 def coq_case(name, case, res):
     """One Definition per case (bare numerals, Z_scope is open)."""
+    if is_split(case):
+        return coq_ccase(name, case, res)
     if res["ctor"] == "ValueError":
         obs = "None"
     else:
@@ -833,7 +1198,7 @@ def features(case, res):
 def shrink(sim, cls, case, fp):
     """Greedy: drop operations while the same clause still fails."""
     def fails(c):
-        return any(f == fp for f, _ in oracle(c, drive(sim, cls, c)))
+        return valid(c) and any(f == fp for f, _ in oracle(c, drive(sim, cls, c)))
     best = case
     budget = 150
     for t0 in (0,):
@@ -863,8 +1228,16 @@ def shrink(sim, cls, case, fp):
         if sp and i in sp:
             i -= 1
             continue
-        ops = best["ops"][:i] + best["ops"][i + 1:]
+        drop = {i}
+        if best["ops"][i][0] == "WB":       # the two halves of a wait go together
+            drop |= set([j for j in range(i + 1, len(best["ops"])) if best["ops"][j][0] == "WE"][:1])
+        elif best["ops"][i][0] == "WE":
+            drop |= set([j for j in range(i) if best["ops"][j][0] == "WB"][-1:])
+        ops = [o for j, o in enumerate(best["ops"]) if j not in drop]
         c = dict(best, ops=ops)
+        if not valid(c):
+            i -= 1
+            continue
         if best["with"] and not with_span(c):
             c["with"] = False           # (cannot happen while a span is protected; a case without span has only direct calls)
         budget -= 1
@@ -880,7 +1253,8 @@ def violation(case, res, fails):
     v = dict(case)
     v.update({"kind": "input", "fingerprint": fp,
               "what": "NotifierDelay(%r) [%s us] at t0=%d: %s" % (case_P(case), case["n"], res["t0"], text),
-              "observed": {"ctor": res["ctor"], "snap0": res["snap0"], "snaps": res["snaps"], "error": res["error"]},
+              "observed": {"ctor": res["ctor"], "snap0": res["snap0"], "snaps": res["snaps"], "error": res["error"],
+                           "waits_in_halves": res.get("split", [])},
               "failing_clauses": [t for _, t in fails][:6]})
     return v
 
@@ -898,7 +1272,14 @@ def run(ctx):
         "n in [%d, %d] (nearest double of n/10^6), not by a theorem; FPGA times stay below 2^63" % (SWEEP_LO, SWEEP_HI))
     ctx.assumptions.append(
         "C16: Python statements take no FPGA time (simulated time is paused and moves only by explicit steps); "
-        "NotifierDelay is used from one thread")
+        "NotifierDelay is used from one thread, except that one wait() at a time may be in progress in a second thread while "
+        "the first one lets time pass, enters the with-block or releases the object (two-thread model: wait() split at its HAL "
+        "call; free()/__exit__ are atomic with respect to the two halves, i.e. the interleaving of stopNotifier / cleanNotifier / "
+        "`_notifier = None` with the second half of wait() is not modelled, only run)")
+    ctx.assumptions.append(
+        "C16: HAL behaviour assumed by the two-thread model and validated by this run's correspondence with a real second "
+        "thread: stopNotifier wakes a thread blocked in waitForNotifierAlarm at once; updateNotifierAlarm on a cleaned "
+        "handle does nothing; the binding raises TypeError for a None handle")
     ctx.prove()
     # the model functions, regenerated from the current source (fail-closed translator harness/pytr.py)
     from . import c16_translate
@@ -937,7 +1318,7 @@ def _run(ctx, sim):
     nrand = 300 if ctx.tier == "quick" else 5000
     cases = load_corpus() + edge_cases() + malformed_cases()
     nfixed = len(cases)
-    cases += [gen_case(r, below) for _ in range(nrand)]
+    cases += [gen_case2(r, below) for _ in range(nrand)]
 
     t_drive = time.time()
     results = []
@@ -967,7 +1348,7 @@ def _run(ctx, sim):
         keys.add(key)
         if f[0] >= 1 and f[1] >= 1 and f[2] >= 1:
             nontrivial.add(key)
-        nwaits += sum(1 for o in c["ops"] if o[0] == "W")
+        nwaits += sum(1 for o in c["ops"] if o[0] in ("W", "WB"))
         ctx.count("ctor=%s" % res["ctor"])
         ctx.count("with-block" if c["with"] else "plain")
         ctx.count("period=%s" % ("non-whole-or-rejected" if c["n"] is None else
@@ -977,10 +1358,24 @@ def _run(ctx, sim):
         ctx.count("waits:called-late", f[1])
         ctx.count("waits:catch-up(first on-time after overrun)", f[2])
         ctx.count("waits:after-free", f[3])
+        if is_split(c):
+            ctx.count("two-thread cases")
+            inprog = rel_during = False
+            for o in c["ops"]:
+                if o[0] == "WB":
+                    inprog, rel_during = True, False
+                    ctx.count("waits:run in halves by a second thread")
+                elif o[0] == "WE":
+                    inprog = False
+                elif o[0] in ("F", "X") and inprog and not rel_during:
+                    rel_during = True
+                    ctx.count("waits:released by another thread while in progress (%s)"
+                              % ("free()" if o[0] == "F" else "with-block left / __exit__"))
         span = with_span(c)
         seen_wait = False
         for j, o in enumerate(c["ops"]):
-            ctx.count("op=%s" % {"B": "body", "W": "wait", "F": "free", "E": "with-enter", "X": "with-exit"}[o[0]])
+            ctx.count("op=%s" % {"B": "body", "W": "wait", "F": "free", "E": "with-enter", "X": "with-exit",
+                                 "WB": "wait-begin (loop thread)", "WE": "wait-end (loop thread joined)"}[o[0]])
             if o[0] == "W":
                 seen_wait = True
             if o[0] == "E" and j < len(res["snaps"]):
@@ -1003,20 +1398,28 @@ def _run(ctx, sim):
     # ---- comparison inside Coq ----------------------------------------
     per = max(10, min(400, -(-len(cases) // 16)))
     items = []
+    index = {}                  # shard -> (positions of its one-thread cases, positions of its two-thread cases)
     for k, sh in enumerate(shards(list(zip(cases, results)), per)):
         defs = "".join(coq_case("c%d" % i, c, res) for i, (c, res) in enumerate(sh))
+        seq = [i for i, (c, _) in enumerate(sh) if not is_split(c)]
+        two = [i for i, (c, _) in enumerate(sh) if is_split(c)]
+        index[k] = (seq, two)
         items.append(("cases_%d" % k, CASES_HEADER + defs + "Definition cases : list case := %s.\n"
-                      "Eval vm_compute in (bad 0 cases).\n" % coq_list(["c%d" % i for i in range(len(sh))])))
+                      "Definition ccases : list ccase := %s.\n"
+                      "Eval vm_compute in (bad 0 cases).\nEval vm_compute in (cbad 0 ccases).\n"
+                      % (coq_list(["c%d" % i for i in seq]), coq_list(["c%d" % i for i in two]))))
     out = ctx.coq_files_parallel(items)
     bad_total = []
     for k, (name, _) in enumerate(items):
         rc, txt = out[name]
         lists = parse_eval_lists(txt) if rc == 0 else []
-        ok = rc == 0 and len(lists) == 1 and lists[0] == []
-        ctx.obligation("corr:%s (Delay.Model on the same operation lists == NotifierDelay under the simulated HAL)" % name,
-                       ok, txt[-1500:])
-        if rc == 0 and lists and lists[0]:
-            bad_total += [k * per + i for i in lists[0]]
+        ok = rc == 0 and len(lists) == 2 and lists[0] == [] and lists[1] == []
+        ctx.obligation("corr:%s (Delay.Model on the same operation lists == NotifierDelay under the simulated HAL; "
+                       "one thread: predict, two threads: cpredict)" % name, ok, txt[-1500:])
+        if rc == 0 and len(lists) == 2:
+            bad_total += [k * per + index[k][0][i] for i in lists[0]]
+            bad_total += [k * per + index[k][1][i] for i in lists[1]]
+    bad_total.sort()
 
     # ---- the float part of the period conversion -----------------------
     t_sweep = time.time()
@@ -1042,7 +1445,10 @@ def _run(ctx, sim):
                 "objects used in a with-statement -- half of them built first and the block entered LATER, after set-up work of "
                 "1 us .. 4 periods (20% with a wait in it), the others `with NotifierDelay(P) as d:` -- that is left at a random point by running to its end / break / return / "
                 "(half of them) an exception of 6 classes raised in the block, 30% of the others get a direct __exit__ "
-                "call with or without exception information, 20% a direct __enter__ call somewhere; t0 up to 2^32 us); non-trivial = the run has at least one wait that blocked until its grid point, at "
+                "call with or without exception information, 20% a direct __enter__ call somewhere; t0 up to 2^32 us; a quarter of "
+                "the objects are used by TWO threads: blocking waits run in halves by a real second thread while the driving thread lets "
+                "time pass / enters the with-block, and (18% of all objects) the first release -- free(), leaving the with-block in any way, "
+                "__exit__ -- happens while the loop thread is blocked inside wait(), at an instant 0 .. slack-1 us after the call); non-trivial = the run has at least one wait that blocked until its grid point, at "
                 "least one late call and at least one catch-up (first on-time wait after an overrun); distinct = different "
                 "(period, t0, operations)",
         "exhaustive": False,
@@ -1079,7 +1485,7 @@ def _run(ctx, sim):
             for _ in range(10 * nrand):
                 if time.time() > t_end:
                     break
-                c = gen_case(r, below)
+                c = gen_case2(r, below)
                 res = drive(sim, cls, c)
                 fails = oracle(c, res)
                 if fails:
@@ -1121,8 +1527,17 @@ def replay(ctx, obj):
                              ", built first (ops 0..%d run before), then `with d:` entered at op %d (the block: the ops after %d and before %d)"
                              % (span[0] - 1, span[0], span[0], span[1]))))
     print("constructor: %s   after it: time, alarm, cleanNotifier calls = %s" % (res["ctor"], res["snap0"]))
+    sp = [list(x) for x in res.get("split", [])]
     for o, s in zip(case["ops"], res["snaps"]):
-        print("  %-10s -> time %d  alarm %s  released %d" % (" ".join(str(x) for x in o), s[0], s[1], s[2]))
+        extra = ""
+        if o[0] == "WB":
+            extra = "   (a second thread, the loop thread, is now inside wait())"
+        elif o[0] == "WE" and sp:
+            c0, r0, e0 = sp.pop(0)
+            extra = "   (the wait() called at %d came back at %d%s)" % (c0, r0, " BY AN EXCEPTION" if e0 else "")
+        print("  %-10s -> time %d  alarm %s  released %d%s" % (" ".join(str(x) for x in o), s[0], s[1], s[2], extra))
+    if res.get("split_error"):
+        print("  the wait() in progress raised %s" % res["split_error"])
     if res["error"]:
         print("  stopped: %s" % res["error"])
     fails = oracle(case, res)
